@@ -106,6 +106,12 @@ func (e *AccessorExpr) getReturnType(accessor string, input interface{}) reflect
 
 	switch {
 	case method != nil:
+		// A method that does not return anything (like AddNode) is not an
+		// accessor.
+		if (*method).Type().NumOut() == 0 {
+			return nil
+		}
+
 		return (*method).Type().Out(0)
 
 	case field != nil:
